@@ -228,7 +228,7 @@ def run_case(rec, files: dict, descs: dict | None, order: list[str], implicit: b
 
                     # ... or is a mere resolution (unresolved before, resolved now): expanding a wildcard through an alias
                     # of a module dereferences that module's own aliases
-                    others_ok = all(k.startswith("placeholder:") or owner(k) in affected or (v[0] is None and v[1] is not None)
+                    others_ok = all(k.startswith("placeholder:") or owner(k) in affected or (v[1] is not None and (v[0] is None or v[0][0] == "PARTIAL"))
                                     for k, v in diff.items())
                     fid = "C06-wildcard-late-expansion" if (gone and others_ok) else None
                     if fid:
